@@ -446,3 +446,56 @@ def write_evidence(prop, tier, seed, level, coverage, assumptions, wall, violati
     with open(os.path.join(EVID, prop + ".json"), "w") as f:
         json.dump(ev, f, indent=1, sort_keys=True)
     return ev
+
+
+# --------------------------------------------------------------------------------------
+# DeltioActors model-checking runs
+# --------------------------------------------------------------------------------------
+REPAIRED = dict(DeleteDrainsMailbox=True, ClosedMeansNotFound=True, PullWatchesDeleted=True, AttachDetached=True,
+                NoRenotifyAfterPartialPull=False, SignalCreatedAfterPull=False, PostDoesNotNotify=False)
+
+
+def actors_mc(workdir, name, procs, subs=("s1",), cap=2, switches=None, invariants=(), allow_cancel=(),
+              init_attached=("s1",), backlog=0, max_expire=1, workers=8, timeout=900, properties=()):
+    """procs: dict process id -> (kind, target subscription). Returns dict(stats, error, out)."""
+    os.makedirs(workdir, exist_ok=True)
+    mod = "MCA_" + name
+    kinds = " [] ".join('p = "%s" -> "%s"' % (p, k) for p, (k, _) in procs.items())
+    targets = " [] ".join('p = "%s" -> "%s"' % (p, t) for p, (_, t) in procs.items())
+    with open(os.path.join(workdir, mod + ".tla"), "w") as f:
+        f.write("---- MODULE %s ----\nEXTENDS DeltioActors\n" % mod)
+        f.write("KindDef == [p \\in Procs |-> CASE %s]\n" % kinds)
+        f.write("TargetDef == [p \\in Procs |-> CASE %s]\n====\n" % targets)
+    sw = dict(REPAIRED)
+    if switches:
+        sw.update(switches)
+    lines = ["SPECIFICATION Spec", "CONSTANTS",
+             "  Subs = %s" % tla_value(set(subs)),
+             "  Procs = %s" % tla_value(set(procs.keys())),
+             "  Kind <- KindDef", "  Target <- TargetDef",
+             "  CAP = %d" % cap, "  MaxExpire = %d" % max_expire,
+             "  AllowCancel = %s" % tla_value(set(allow_cancel)),
+             "  InitAttached = %s" % tla_value(set(init_attached)),
+             "  InitBacklog = %d" % backlog]
+    for k, v in sw.items():
+        lines.append("  %s = %s" % (k, tla_value(v)))
+    if invariants:
+        lines.append("INVARIANT " + " ".join(invariants))
+    if properties:
+        lines.append("PROPERTY " + " ".join(properties))
+    cfg = os.path.join(workdir, mod + ".cfg")
+    with open(cfg, "w") as f:
+        f.write("\n".join(lines) + "\n")
+    meta = os.path.join(workdir, "tlc-meta-%s-%d" % (name, os.getpid()))
+    cmd = ["timeout", str(timeout), "java", "-XX:+UseParallelGC", "-Xss64m", "-DTLA-Library=" + SPEC,
+           "-cp", TLA_JAR + ":/opt/veriftools/tla/CommunityModules-deps.jar", "tlc2.TLC",
+           "-workers", str(workers), "-metadir", meta, "-cleanup", "-noGenerateSpecTE",
+           "-config", cfg, os.path.join(workdir, mod + ".tla")]
+    rc, out = sh(cmd, timeout=timeout + 30, env={"JAVA_TOOL_OPTIONS": ""}, cwd=workdir)
+    shutil.rmtree(meta, ignore_errors=True)
+    err = None
+    m = re.search(r"Error: (Invariant (\S+) is violated|Deadlock reached|Temporal properties were violated|.*)", out)
+    if "Model checking completed. No error has been found." not in out:
+        err = m.group(1) if m else "TLC did not complete"
+    trace = [l for l in out.splitlines() if l.startswith("State ")]
+    return {"stats": parse_mc(out), "error": err, "out": out, "trace": trace, "config": {"procs": procs, "cap": cap, "switches": sw}}
